@@ -38,6 +38,10 @@ pub struct Plan {
     pub sigint: String,
     #[serde(default)]
     pub heap: bool,
+    /// simulated producer pauses (ms) before the k-th read(0) is answered, cyclic; delta's
+    /// monotonic and wall clocks advance by exactly these amounts
+    #[serde(default)]
+    pub rdelays_ms: Vec<i64>,
 }
 fn minus_one() -> i64 {
     -1
@@ -51,7 +55,7 @@ fn yes() -> bool {
 
 impl Plan {
     pub fn basic(seed: u64) -> Plan {
-        Plan { seed, clock: 1_700_000_000, rchunks: vec![], wplan: vec![], wfail_at: -1, wfail_errno: 32, wfail_sticky: true, sigint: String::new(), heap: false }
+        Plan { seed, clock: 1_700_000_000, rchunks: vec![], wplan: vec![], wfail_at: -1, wfail_errno: 32, wfail_sticky: true, sigint: String::new(), heap: false, rdelays_ms: vec![] }
     }
 }
 
@@ -280,6 +284,9 @@ pub fn run(env: &Env, spec: &RunSpec, dir: &Path, keep: bool) -> std::io::Result
     }
     if p.heap {
         plan.push_str("heap 1\n");
+    }
+    if !p.rdelays_ms.is_empty() {
+        plan.push_str(&format!("rdelays_ms {}\n", list_str(&p.rdelays_ms)));
     }
     fs::write(d("plan"), plan)?;
 
